@@ -33,6 +33,8 @@ CLS2OP = {"OrLocStackChecker": "Or", "AndLocStackChecker": "And", "XorLocStackCh
 
 def run(repo: Repo, tier: str, res: CheckResult, seed: int = 0) -> None:
     m = repo.mod(LSF)
+    fast_path_classes_final(repo, m, res)
+    facade_bound_wraps(repo, res)
     operator_table(m, res)
     reducers(m, res)
     reiterable_sites(repo, res)
@@ -687,3 +689,58 @@ def bounding(repo: Repo, res: CheckResult) -> None:
     if not ok3:
         res.add(Finding("C10", "BOUND.handlers", m.rel, "LocStackBoundingProvider.get_request_handlers", norm(gh)[:160],
                         "bounding must keep every handler of the provider and only narrow its checker", gh.lineno))
+
+
+# ------------------------------------------------------------------------------------------ router fast path / facade bound
+def fast_path_classes_final(repo: Repo, m: ModuleInfo, res: CheckResult) -> None:
+    """The router selects its table fast path with isinstance(checker, X) and then routes by X's key alone (the origin). A
+    checker class that SUBCLASSES X to add a condition (exact type = origin + arguments) is routed by the origin only: inside
+    a retort `loader(list[int], f)` then serves list[str]. Every class tested that way must have no subclass."""
+    rm = repo.mod("retort/routers")
+    n = 0
+    for c in ast.walk(rm.tree):
+        if isinstance(c, ast.Call) and norm(c.func) == "isinstance" and len(c.args) == 2:
+            for t in (c.args[1].elts if isinstance(c.args[1], ast.Tuple) else [c.args[1]]):
+                r = repo.resolve_expr_static(rm, t) if isinstance(t, (ast.Name, ast.Attribute)) else None
+                if r is None or r.kind != "class" or r.cls is None or r.cls.module is not m:
+                    continue
+                n += 1
+                res.evaluated(f"router-fast-path:{r.cls.name}", True)
+                subs = [x.name for x in repo.all_classes() if x is not r.cls and repo.is_subclass(x, r.cls.name)]
+                if subs:
+                    res.add(Finding("C10", "ROUTER.fast-path-class-subclassed", m.rel, r.cls.name, f"{', '.join(sorted(subs))} < {r.cls.name}",
+                                    f"retort/routers.py recognises {r.cls.name} with isinstance and routes by its key alone, but "
+                                    f"{sorted(subs)} subclass it and add a condition: inside a retort their predicate is reduced to the "
+                                    f"{r.cls.name} part (a parametrised type predicate matches every type of the same origin) while "
+                                    "create_loc_stack_checker(...).check_loc_stack stays exact", r.cls.node.lineno))
+    res.count("ROUTER.fast-path-classes", n, 1)
+
+
+def facade_bound_wraps(repo: Repo, res: CheckResult) -> None:
+    """bound(pred, provider) limits a provider by WRAPPING it; the provider object itself (which `enum_by_name()` and friends hand
+    out and users reuse) must never be modified, or a second bound() of the same object also narrows the first one."""
+    fm = repo.mod("provider/facade/provider")
+    n = 0
+    for fn in [f for f in fm.tree.body if isinstance(f, ast.FunctionDef)]:
+        provs = {a.arg for a in fn.args.args + fn.args.kwonlyargs
+                 if a.arg == "provider" or (a.annotation is not None and norm(a.annotation) == "Provider")}
+        if not provs:
+            continue
+        n += 1
+        res.evaluated(f"facade-bound:{fn.name}", True)
+        for st in ast.walk(fn):
+            tgts = st.targets if isinstance(st, ast.Assign) else [st.target] if isinstance(st, (ast.AugAssign, ast.AnnAssign)) else []
+            for t in tgts:
+                base = t
+                while isinstance(base, (ast.Attribute, ast.Subscript)):
+                    base = base.value
+                if isinstance(t, (ast.Attribute, ast.Subscript)) and isinstance(base, ast.Name) and base.id in provs:
+                    res.add(Finding("C10", "BOUND.provider-modified-in-place", fm.rel, fn.name, norm(st)[:100],
+                                    f"`{norm(st)[:80]}` changes the provider that was passed in instead of wrapping it: the same provider "
+                                    "object bound a second time (or used on its own) is narrowed by the first predicate as well -- "
+                                    "bound(p2, x) after bound(p1, x) matches p2 & p1", st.lineno))
+            if isinstance(st, ast.Call) and norm(st.func) in ("setattr", "object.__setattr__") and st.args \
+                    and isinstance(st.args[0], ast.Name) and st.args[0].id in provs:
+                res.add(Finding("C10", "BOUND.provider-modified-in-place", fm.rel, fn.name, norm(st)[:100],
+                                f"`{norm(st)[:80]}` changes the provider that was passed in", st.lineno))
+    res.count("BOUND.facade-functions", n, 2)
